@@ -107,7 +107,7 @@ theorem adductMass_discrepancy (mono : Bool) (x : List Nat) (cnt : Int) (sym : K
   unfold adductMass
   rw [hp, bind_ok]
   simp only [he, if_false]
-  rw [hm]
+  rw [Mass.adductElemMass_of_table mono sym m hm]
   apply congrArg Except.ok
   ring
 
